@@ -27,6 +27,14 @@ PHRASES = ['10 usd to try', '$25/hour * 14 hours of work', '3 hours 20 minutes +
 NAMES = ['zq', 'wv', 'mk total', 'çay', 'rent xx']
 
 
+LATE_RULES = [
+    {'lang': 'en', 'patterns': ['dozen'], 'spec': {'name': 'late1', 'kind': 'const', 'value': 12}},
+    {'lang': 'en', 'patterns': ['zork {NUMBER:a} {NUMBER:b}', '{NUMBER:a} zork'], 'spec': {'name': 'late2', 'kind': 'encode', 'weights': {'a': 3}}},
+    {'lang': 'tr', 'patterns': ['{NUMBER:n} kere'], 'spec': {'name': 'late3', 'kind': 'encode', 'weights': {'n': 7}}},
+]
+LATE_PROBES = [('en', 'dozen'), ('en', 'dozen * 2'), ('en', '3 dozen'), ('en', 'zork 3 4'), ('en', '5 zork'), ('tr', '5 kere'), ('en', '1 + 1'), ('tr', 'dozen')]
+
+
 def binding_text(rng):
     """-> [texts]: a text that binds names, then texts that read them (which must NOT see the bindings)"""
     n = rng.choice(NAMES)
@@ -158,7 +166,30 @@ def run_shard(ctx):
                 ops += [{'op': 'new_calc', 'c': 2}] + gh.config_ops(cfg, 2, seg=False)
                 ops.append({'op': 'execute', 'c': 2, 'lang': lang, 'text': t})
                 c_idx[k] = len(ops) - 1
+            # a configuration change made *after* evaluations has the same effect as on a calculator that never evaluated anything:
+            # custom rules (one with a one-word pattern) are registered on the long-lived calculator and on a new one
+            late = []
+            for spec in LATE_RULES:
+                ops.append({'op': 'delete_rule', 'c': 0, 'lang': spec['lang'], 'name': spec['spec']['name']})
+                ops.append(dict(spec, op='add_rule', c=0))
+            ops += [{'op': 'new_calc', 'c': 2}] + gh.config_ops(cfg, 2, seg=False) + [dict(spec, op='add_rule', c=2) for spec in LATE_RULES]
+            for lang, t in LATE_PROBES:
+                ops.append({'op': 'execute', 'c': 0, 'lang': lang, 'text': t})
+                ops.append({'op': 'execute', 'c': 2, 'lang': lang, 'text': t})
+                late.append((lang, t, len(ops) - 2, len(ops) - 1))
+            for spec in LATE_RULES:
+                ops.append({'op': 'delete_rule', 'c': 0, 'lang': spec['lang'], 'name': spec['spec']['name']})     # the long-lived calculator goes on without them
             rs = drv.run(ops)
+            for lang, t, i0, i2 in late:
+                res.cases += 1
+                res.count('late_registration_probes_compared')
+                if strip(rs[i0]) != strip(rs[i2]):
+                    res.violation('history:late-registration-differs', 'custom rules registered after a stream of evaluations: %r (%s) gives %s, on a calculator that had not evaluated anything before the registration %s'
+                                  % (t, lang, str(strip(rs[i0]))[:200], str(strip(rs[i2]))[:200]),
+                                  {'config': cfg, 'lang': lang, 'text': t,
+                                   'ops': gh.config_ops(cfg) + [{'op': 'execute', 'lang': 'en', 'text': '1 + 1'}] + [dict(spec, op='add_rule') for spec in LATE_RULES] + [{'op': 'execute', 'lang': lang, 'text': t}]})
+                else:
+                    res.count('ok')
             for k, (lang, t) in enumerate(texts):
                 ra, rb = rs[a_idx[k]], rs[b_idx[k]]
                 res.cases += 1
